@@ -61,5 +61,15 @@ fn parse_comment<'n>(node: Node<'n, 'n>) -> Option<String> {
 pub fn xml_name_to_rust_name(xml_name: &str) -> String {
     let rust_name = to_pascal_case(xml_name);
     // the only keyword that survives PascalCase; it cannot be a raw identifier either
-    if rust_name == "Self" { "Self_".to_string() } else { rust_name }
+    if rust_name == "Self" {
+        "Self_".to_string()
+    } else if rust_name.is_empty() {
+        // nothing of a name like `_` survives the conversion
+        "__".to_string()
+    } else if rust_name.starts_with(char::is_numeric) {
+        // `_1` becomes `1`, which is not an identifier
+        format!("_{rust_name}")
+    } else {
+        rust_name
+    }
 }
